@@ -515,7 +515,7 @@ def run(tier, seed):
                           function=hf.cname, obj="refcount")
 
         # ---- R5 nullable strings ---------------------------------------------------------------------------------------
-        rid = rep.rule("R5", "nullable header strings (path, filename, symlink_target, unix_username, unix_group) are used as strings only under a non-NULL fact", 30)
+        rid = rep.rule("R5", "nullable header strings (path, filename, symlink_target, unix_username, unix_group) are used as strings only under a non-NULL fact", 25)
         LISTED = {
             ("is_macbinary_header", "filename"): "MacBinary detection runs for file members only (open_decoder requires a NORMAL entry that is decoded; C12.R5: a file entry always has a name)",
             ("extract_directory", "path"): "directory entries always have a path (C12.R5 presence rule); reached only for -lhd- entries without symlink target",
@@ -529,8 +529,9 @@ def run(tier, seed):
         presence_rules(rep, ctx, mod, cg, prefix="R5p:")
         nuse = 0
         for fn in mod.defined():
-            if fn.file.endswith("lha_file_header.c") or fn.file.endswith("ext_header.c"):
-                continue        # the producer: fields are being built here (covered by C11/C12/C20 rules)
+            if (fn.file.endswith("lha_file_header.c") or fn.file.endswith("ext_header.c")) and fn.internal:
+                continue        # the producer's private helpers: fields are being built here (covered by C11/C12/C20 rules); its exported
+                                # functions (lha_file_header_full_path ...) are consumers like any other and are held to the rule
             F = None
             M = Matcher(fn)
             for fld in NULLABLE:
@@ -611,7 +612,32 @@ def _string_uses(fn, mod, ld):
                     vals.add(u.id)
                     work.append(u.id)
             elif u.op == "phi":
-                # merged with other strings (e.g. `path = header->path` / "" default): follow
+                # merged with other strings (e.g. `path = header->path` / "" default): follow - unless the pointer enters the phi only on
+                # edges that carry its non-NULL fact (`p = h->path != NULL ? h->path : ""`): then what comes out is never the NULL
+                from ..facts import Facts as _F
+                Fx = getattr(fn, "_c08_facts", None) or _F(fn)
+                fn._c08_facts = Fx
+                safe = True
+                for v_, pb_ in u.incoming:
+                    if v_ == ("v", x):
+                        fs_ = Fx.on_edge(pb_, u.block.id)
+                        if not any(f_[0] == "ne" and is_const(f_[2]) and const_val(f_[2]) == 0 and (f_[1] == ("v", ld.id) or f_[1] == ("v", x)) for f_ in fs_):
+                            # or a NULL test of another load of the same field of the same object
+                            d0 = fn.defn(("v", ld.id))
+                            ok2 = False
+                            for f_ in fs_:
+                                if f_[0] == "ne" and is_const(f_[2]) and const_val(f_[2]) == 0:
+                                    d2 = fn.defn(f_[1])
+                                    if d2 is not None and not d2.is_param and d2.op == "load" and d0 is not None and d2.ops[0] == d0.ops[0]:
+                                        ok2 = True
+                                    elif d2 is not None and not d2.is_param and d2.op == "load" and d0 is not None:
+                                        g1, g2 = fn.defn(d0.ops[0]), fn.defn(d2.ops[0])
+                                        if g1 is not None and g2 is not None and not g1.is_param and not g2.is_param and g1.op == g2.op == "getelementptr" and g1.ops == g2.ops and g1.steps == g2.steps:
+                                            ok2 = True
+                            if not ok2:
+                                safe = False
+                if safe:
+                    continue
                 if u.id not in vals:
                     vals.add(u.id)
                     work.append(u.id)
